@@ -137,9 +137,10 @@ def report(prop, res, args, extra):
     level = props.LEVEL.get(prop, "proof")
     n_known = len(res["known_hits"])
     cov = {
-        "obligations": res["obligations"],
+        "obligations": res["obligations"] - n_known,  # obligations claimed; those failing only as listed known findings are counted separately
         "discharged": res["discharged"],
         "known_finding_obligations": n_known,
+        "obligations_total_incl_known_findings": res["obligations"],
         "failed": len(res["violations"]),
         "undecided": len(res["undecided"]),
         "checker_cmd": "./check %s --tier %s  (pyvc: AST symbolic execution of /repo source + sidecar contracts; back ends %s)" % (prop, res["tier"], json.dumps(res["backends"])),
